@@ -97,7 +97,7 @@ class PITDilationMasker(nn.Module):
         # transpose & flip
         c_gamma = torch.transpose(c_gamma, 0, 1)
         # everything on the time-axis is flipped with respect to the paper
-        # c_gamma = torch.fliplr(c_gamma)
+        c_gamma = torch.flip(c_gamma, (0,))
         return c_gamma
 
     @property
